@@ -174,6 +174,8 @@ fn main() -> Result<()> {
                 .stack_size(stack_size);
 
             let main_thread = builder.spawn(move || -> Result<(Result<()>, Option<Instant>)> {
+                Program::set_native_stack_budget(stack_size);
+
                 let Some(product) = compile(&path, true, !quick, false, override_no_pb)? else {
                     unreachable!();
                 };
@@ -263,6 +265,8 @@ fn main() -> Result<()> {
                 .stack_size(stack_size);
 
             let main_thread = builder.spawn(move || -> Result<()> {
+                Program::set_native_stack_budget(stack_size);
+
                 let program = if transpile_first {
                     println!("=======================\n");
                     let new_path = transpile_command(&path)?;
